@@ -14,8 +14,30 @@ import (
 
 // Trace is an unbuffered ndjson writer: events must survive a log.Crit exit of the process.
 type Trace struct {
-	f *os.File
-	N int
+	f    *os.File
+	N    int
+	hold bool
+	held [][]byte
+}
+
+// Hold makes Emit keep events in memory until Release (EmitNow still writes at once).
+func (t *Trace) Hold() { t.hold = true }
+
+// Release writes the held events.
+func (t *Trace) Release() {
+	for _, b := range t.held {
+		t.f.Write(b)
+		t.N++
+	}
+	t.held, t.hold = nil, false
+}
+
+// EmitNow writes an event immediately, ahead of held ones.
+func (t *Trace) EmitNow(ev any) {
+	h := t.hold
+	t.hold = false
+	t.Emit(ev)
+	t.hold = h
 }
 
 func NewTrace(path string) *Trace {
@@ -31,7 +53,12 @@ func (t *Trace) Emit(ev any) {
 	if err != nil {
 		tl.Fatal("marshal event: %v", err)
 	}
-	t.f.Write(append(b, '\n'))
+	b = append(b, '\n')
+	if t.hold {
+		t.held = append(t.held, b)
+		return
+	}
+	t.f.Write(b)
 	t.N++
 }
 
@@ -100,7 +127,9 @@ func worldOrEmpty(w World) []int {
 	return w
 }
 
-// observe adds the projected abstract state to the event.
+// Observe adds the projected abstract state to the event.
+func (rn *Runner) Observe(ev tl.M) { rn.observe(ev) }
+
 func (rn *Runner) observe(ev tl.M) {
 	e := rn.E
 	if err := e.PDB.VerifHistWaitFlush(); err != nil {
